@@ -834,10 +834,15 @@ def check(prop: str, tier: str) -> int:
         path = write_replay(prop, eng, vseed, run, small, v, n0, execs, tier)
         env = dict(os.environ)
         env["PYTHONHASHSEED"] = hs_other
-        p = subprocess.run(
-            [PYTHON, "-m", "simverif", prop, "--replay", path],
-            cwd=VERIF_DIR, env=env, capture_output=True, text=True, timeout=900,
-        )
+        try:
+            p = subprocess.run(
+                [PYTHON, "-m", "simverif", prop, "--replay", path],
+                cwd=VERIF_DIR, env=env, capture_output=True, text=True, timeout=1800,
+            )
+        except subprocess.TimeoutExpired:
+            print(f"HARNESS-ERROR: replay of {path} in a fresh interpreter did not finish within 1800 s; not reported as a violation")
+            status = 2
+            continue
         if p.returncode == 0 and eng.replay_repeat_max > 1:
             # not reproduced by one execution in a fresh process: does it need history?
             path = write_replay(prop, eng, vseed, run, small, v, n0, execs, tier, repeat=eng.replay_repeat_max)
